@@ -3,7 +3,622 @@ From Verif Require Import Base.GoInt Proto.Ext Generated.ProtoGen Proto.Model Pr
 From Coq Require Import ZifyBool.
 Open Scope Z_scope.
 
+(* ---------- basic facts ---------- *)
+Lemma len_nonneg {A} (l : list A) : 0 <= len l.
+Proof. unfold len; lia. Qed.
+Lemma w64_id x : 0 <= x < 2 ^ 64 -> w64 x = x.
+Proof. intros; unfold w64; apply Z.mod_small; lia. Qed.
+Lemma s64_id x : 0 <= x < 2 ^ 63 -> s64 x = x.
+Proof.
+  intros; unfold s64; rewrite w64_id by lia; cbv zeta.
+  destruct (x <? 2 ^ 63) eqn:E; lia.
+Qed.
+
+Lemma wfb_skipn n b : wfb b = true -> wfb (skipn n b) = true.
+Proof.
+  revert b; induction n; intros b H; [exact H|].
+  destruct b; [exact H|]. cbn [skipn]. apply IHn.
+  unfold wfb in *; cbn [forallb] in H. apply andb_true_iff in H; tauto.
+Qed.
+Lemma wfb_firstn n b : wfb b = true -> wfb (firstn n b) = true.
+Proof.
+  revert b; induction n; intros b H; [reflexivity|].
+  destruct b; [reflexivity|]. cbn [firstn].
+  unfold wfb in *; cbn [forallb] in *. apply andb_true_iff in H. apply andb_true_iff.
+  split; [tauto | apply IHn; tauto].
+Qed.
+Lemma wfb_slice_from b i : wfb b = true -> wfb (slice_from b i) = true.
+Proof. apply wfb_skipn. Qed.
+Lemma wfb_slice b i j : wfb b = true -> wfb (slice b i j) = true.
+Proof. intros; unfold slice; apply wfb_firstn, wfb_skipn; assumption. Qed.
+Lemma len_slice_from (b : bytes) i : 0 <= i <= len b -> len (slice_from b i) = len b - i.
+Proof. unfold len, slice_from; intros; rewrite skipn_length; lia. Qed.
+Lemma len_slice (b : bytes) i j : 0 <= i <= j -> j <= len b -> len (slice b i j) = j - i.
+Proof. unfold len, slice; intros; rewrite firstn_length, skipn_length; lia. Qed.
+Lemma length_slice_le (b : bytes) i j : (length (slice b i j) <= length b)%nat.
+Proof. unfold slice; rewrite firstn_length, skipn_length; lia. Qed.
+
+Lemma cfrom_ok b i : 0 <= i <= len b -> cfrom b i = Ok (slice_from b i).
+Proof. intros; unfold cfrom. replace ((0 <=? i) && (i <=? len b)) with true by lia. reflexivity. Qed.
+Lemma cslice_ok b i j : 0 <= i <= j -> j <= len b -> cslice b i j = Ok (slice b i j).
+Proof. intros; unfold cslice. replace ((0 <=? i) && (i <=? j) && (j <=? len b)) with true by lia. reflexivity. Qed.
+
+(* ---------- the primitives, in the form used below ---------- *)
+Lemma dv_bounds b v n e : wfb b = true -> proto_decodeVarint b = (v, n, e) ->
+  0 <= n <= len b /\ 0 <= v < 2 ^ 64 /\ (e = None -> 1 <= n).
+Proof.
+  intros Hwf E. pose proof (decodeVarint_bounds b Hwf) as H. rewrite E in H.
+  unfold u64 in H. intuition lia.
+Qed.
+Lemma dt_bounds b f t n e : wfb b = true -> proto_decodeTag b = (f, t, n, e) ->
+  0 <= n <= len b /\ (e = None -> 1 <= n).
+Proof.
+  intros Hwf E. unfold proto_decodeTag in E. cbv zeta in E.
+  destruct (proto_decodeVarint b) as [[v n'] e'] eqn:E'.
+  apply dv_bounds in E'; [|assumption]. inversion E; subst. intuition lia.
+Qed.
+Lemma dl_bounds b v n e : wfb b = true -> len b < lim -> proto_decodeVarlen b = (v, n, e) ->
+  0 <= n <= len b.
+Proof.
+  intros Hwf Hl E. pose proof (decodeVarlen_bounds b Hwf) as H. rewrite E in H.
+  unfold lim in Hl. apply H. lia.
+Qed.
+Lemma dle32_bounds b v n e : proto_decodeLE32 b = (v, n, e) -> 0 <= n <= len b.
+Proof. pose proof (len_nonneg b). unfold proto_decodeLE32. destruct (len b <? 4) eqn:G; intros E; inversion E; subst; lia. Qed.
+Lemma dle64_bounds b v n e : proto_decodeLE64 b = (v, n, e) -> 0 <= n <= len b.
+Proof. pose proof (len_nonneg b). unfold proto_decodeLE64. destruct (len b <? 8) eqn:G; intros E; inversion E; subst; lia. Qed.
+
+Global Opaque proto_decodeVarint proto_decodeTag proto_decodeVarlen proto_decodeLE32 proto_decodeLE64.
+
+Ltac finish := unfold dret; do 3 eexists; split; [reflexivity | lia].
+
+(* ---------- the struct loop, taken out of [decode] ---------- *)
+Section Loop.
+  Variable dec : codec -> bytes -> val -> Z -> dres.
+  Variable fields : list sfield.
+  Variable b : bytes.
+  Variables flags maxn : Z.
+
+  Definition skip_of (wireType : Z) (w : bytes) : Z * option proto_error :=
+    if wireType =? proto_varint then let '(_, s, e) := proto_decodeVarint w in (s, e)
+    else if wireType =? proto_varlen then
+      let '(size, s, e) := proto_decodeVarint w in
+      match e with
+      | Some _ => (s, e)
+      | None => if size >? w64 (len b - s) then (s, Some proto_ErrUnexpectedEOF) else (s + s64 size, None)
+      end
+    else if wireType =? proto_fixed32 then let '(_, s, e) := proto_decodeLE32 w in (s, e)
+    else if wireType =? proto_fixed64 then let '(_, s, e) := proto_decodeLE64 w in (s, e)
+    else (0, Some proto_ErrWireTypeUnknown).
+
+  Definition win_of (wireType offset : Z) (w : bytes) (f : sfield) : res (option (Z * Z) * Z * option proto_error) :=
+    if wireType =? proto_varint then
+      let '(_, n, e) := proto_decodeVarint w in
+      match e with Some _ => Ok (None, offset, e) | None => Ok (Some (offset, offset + n), offset, None) end
+    else if wireType =? proto_varlen then
+      let '(l, n, e) := proto_decodeVarint w in
+      match e with
+      | Some _ => Ok (None, offset + n, e)
+      | None =>
+          if l >? w64 (len b - (offset + n)) then Ok (None, len b, Some proto_ErrUnexpectedEOF)
+          else if sf_embedded f then Ok (Some (offset + n, offset + n + s64 l), offset + n, None)
+          else Ok (Some (offset, offset + n + s64 l), offset, None)
+      end
+    else if wireType =? proto_fixed32 then
+      if (offset + 4) >? len b then Ok (None, len b, Some proto_ErrUnexpectedEOF) else Ok (Some (offset, offset + 4), offset, None)
+    else if wireType =? proto_fixed64 then
+      if (offset + 8) >? len b then Ok (None, len b, Some proto_ErrUnexpectedEOF) else Ok (Some (offset, offset + 8), offset, None)
+    else Ok (None, offset, Some proto_ErrWireTypeUnknown).
+
+  Definition sunknown (rec : Z -> list val -> dres) (wireType offset : Z) (vs : list val) : dres :=
+    rlet w <- cfrom b offset in
+    let '(skip, err) := skip_of wireType w in
+    let '(offset, err) := if (s64 (offset + skip)) <=? len b then (s64 (offset + skip), err) else (len b, Some proto_ErrUnexpectedEOF) in
+    match err with Some _ => dret offset err (VStruct vs) | None => rec offset vs end.
+
+  Definition sknown (rec : Z -> list val -> dres) (wireType offset : Z) (vs : list val) (i : nat) (f : sfield) : dres :=
+    if negb (wireType =? wire (sf_codec f)) then dret offset err_mismatch (VStruct vs) else
+    rlet w <- cfrom b offset in
+    rlet (range, offset, err) <- win_of wireType offset w f in
+    match range with
+    | None => dret offset err (VStruct vs)
+    | Some (lo, hi) =>
+        rlet data <- cslice b lo hi in
+        let oldf := nth i vs (zero_val (sf_ty f)) in
+        rlet (n, err, newf) <- dec (sf_codec f) data oldf (make_flags f flags) in
+        let offset := offset + n in
+        let vs := set_nth vs i newf in
+        match err with Some _ => dret offset err (VStruct vs) | None => rec offset vs end
+    end.
+
+  Definition sbody (rec : Z -> list val -> dres) (offset : Z) (vs : list val) : dres :=
+    if negb (offset <? len b) then dret offset None (VStruct vs) else
+    rlet w <- cfrom b offset in
+    let '(fieldNumber, wireType, n, err) := proto_decodeTag w in
+    let offset := offset + n in
+    match err with Some _ => dret offset err (VStruct vs) | None =>
+    let fo := if (0 <=? fieldNumber) && (fieldNumber <? maxn + 1) && (fieldNumber <? 2^63) then nth_field fields vs fieldNumber else None in
+    match fo with
+    | None => sunknown rec wireType offset vs
+    | Some (i, f) => sknown rec wireType offset vs i f
+    end end.
+
+  Definition sloop : nat -> Z -> list val -> dres :=
+    fix loop (fuel : nat) (offset : Z) (vs : list val) {struct fuel} : dres :=
+      match fuel with O => OutOfFuel | S fuel'' => sbody (loop fuel'') offset vs end.
+End Loop.
+
+Lemma decode_struct_eq f i fields b old flags :
+  decode (S f) (CStruct i fields) b old flags =
+  sloop (decode f) fields b (without flags proto_toplevel) (max_number fields) f 0
+        (match old with VStruct vs => vs | _ => [] end).
+Proof. reflexivity. Qed.
+
+Lemma nf_go_In number : forall fs i acc j f,
+  (fix go (fs : list sfield) (i : nat) (acc : option (nat * sfield)) : option (nat * sfield) :=
+     match fs with
+     | [] => acc
+     | f :: r => go r (S i) (if sf_number f =? number then Some (i, f) else acc)
+     end) fs i acc = Some (j, f) -> In f fs \/ acc = Some (j, f).
+Proof.
+  induction fs as [|a r IH]; intros i acc j f H; [right; exact H|].
+  apply IH in H. destruct H as [H|H]; [left; right; exact H|].
+  destruct (sf_number a =? number); [inversion H; left; left; reflexivity | right; exact H].
+Qed.
+Lemma nth_field_In fields vs number j f : nth_field fields vs number = Some (j, f) -> In f fields.
+Proof.
+  unfold nth_field. intros H. apply nf_go_In in H. destruct H as [H|H]; [exact H | discriminate].
+Qed.
+
+Section LoopOk.
+  Variable dec : codec -> bytes -> val -> Z -> dres.
+  Variable fields : list sfield.
+  Variable b : bytes.
+  Variables flags maxn : Z.
+  Hypothesis Hwf : wfb b = true.
+  Hypothesis Hlen : len b < lim.
+  Hypothesis Hdec : forall f, In f fields -> forall data oldf fl,
+    wfb data = true -> (length data <= length b)%nat ->
+    exists n e v, dec (sf_codec f) data oldf fl = Ok (n, e, v) /\ 0 <= n <= len data.
+
+  Lemma skip_of_ok wt w skip err : wfb w = true -> len w <= len b ->
+    skip_of b wt w = (skip, err) -> 0 <= skip <= 2 * len b.
+  Proof.
+    intros Hw Hlw. pose proof (len_nonneg w). unfold lim in Hlen. unfold skip_of.
+    destruct (wt =? proto_varint).
+    { destruct (proto_decodeVarint w) as [[x s] e] eqn:E. apply dv_bounds in E; [|assumption].
+      intros E'; inversion E'; subst. lia. }
+    destruct (wt =? proto_varlen).
+    { destruct (proto_decodeVarint w) as [[x s] e] eqn:E. apply dv_bounds in E; [|assumption].
+      destruct e; [intros E'; inversion E'; subst; lia|].
+      rewrite w64_id by lia.
+      destruct (x >? len b - s) eqn:G; intros E'; inversion E'; subst; [lia|].
+      rewrite s64_id by lia. lia. }
+    destruct (wt =? proto_fixed32).
+    { destruct (proto_decodeLE32 w) as [[x s] e] eqn:E. apply dle32_bounds in E.
+      intros E'; inversion E'; subst. lia. }
+    destruct (wt =? proto_fixed64).
+    { destruct (proto_decodeLE64 w) as [[x s] e] eqn:E. apply dle64_bounds in E.
+      intros E'; inversion E'; subst. lia. }
+    intros E'; inversion E'; subst. lia.
+  Qed.
+
+  Lemma win_of_ok wt offset f : 0 <= offset <= len b ->
+    exists range off' err, win_of b wt offset (slice_from b offset) f = Ok (range, off', err) /\
+      offset <= off' <= len b /\
+      match range with
+      | None => True
+      | Some (lo, hi) => 0 <= lo <= hi /\ hi <= len b /\ off' + (hi - lo) <= len b
+      end.
+  Proof.
+    intros Ho. unfold lim in Hlen.
+    assert (Hw : wfb (slice_from b offset) = true) by (apply wfb_slice_from; assumption).
+    pose proof (len_slice_from b offset Ho) as Hlw.
+    set (w := slice_from b offset) in *. unfold win_of.
+    destruct (wt =? proto_varint).
+    { destruct (proto_decodeVarint w) as [[x n] e] eqn:E. apply dv_bounds in E; [|assumption].
+      destruct e; do 3 eexists; (split; [reflexivity|]); split; try lia; exact I. }
+    destruct (wt =? proto_varlen).
+    { destruct (proto_decodeVarint w) as [[x n] e] eqn:E. apply dv_bounds in E; [|assumption].
+      destruct e; [do 3 eexists; (split; [reflexivity|]); split; [lia | exact I]|].
+      rewrite w64_id by lia.
+      destruct (x >? len b - (offset + n)) eqn:G;
+        [do 3 eexists; (split; [reflexivity|]); split; [lia | exact I]|].
+      rewrite s64_id by lia.
+      destruct (sf_embedded f); do 3 eexists; (split; [reflexivity|]); split; lia. }
+    destruct (wt =? proto_fixed32).
+    { destruct (offset + 4 >? len b) eqn:G; do 3 eexists; (split; [reflexivity|]); split; try lia; exact I. }
+    destruct (wt =? proto_fixed64).
+    { destruct (offset + 8 >? len b) eqn:G; do 3 eexists; (split; [reflexivity|]); split; try lia; exact I. }
+    do 3 eexists; (split; [reflexivity|]); split; [lia | exact I].
+  Qed.
+
+  Definition rec_ok (rec : Z -> list val -> dres) (pre : Z) : Prop :=
+    forall o vs, pre < o <= len b -> exists n e v, rec o vs = Ok (n, e, v) /\ 0 <= n <= len b.
+
+  Lemma sunknown_ok rec pre wt offset vs : 0 <= pre < offset -> offset <= len b -> rec_ok rec pre ->
+    exists n e v, sunknown b rec wt offset vs = Ok (n, e, v) /\ 0 <= n <= len b.
+  Proof.
+    intros Hp Ho Hrec. unfold lim in Hlen. unfold sunknown.
+    rewrite cfrom_ok by lia. cbn [rbind].
+    destruct (skip_of b wt (slice_from b offset)) as [skip err] eqn:E.
+    apply skip_of_ok in E; [|apply wfb_slice_from; assumption | rewrite len_slice_from by lia; lia].
+    rewrite s64_id by lia.
+    destruct (offset + skip <=? len b) eqn:G; [|finish].
+    destruct err; [finish|]. apply Hrec. lia.
+  Qed.
+
+  Lemma sknown_ok rec pre wt offset vs i f : 0 <= pre < offset -> offset <= len b -> In f fields ->
+    rec_ok rec pre ->
+    exists n e v, sknown dec b flags rec wt offset vs i f = Ok (n, e, v) /\ 0 <= n <= len b.
+  Proof.
+    intros Hp Ho Hin Hrec. unfold sknown.
+    destruct (negb (wt =? wire (sf_codec f))); [finish|].
+    rewrite cfrom_ok by lia. cbn [rbind].
+    destruct (win_of_ok wt offset f) as (range & off' & err & E & Hoff & Hr); [lia|].
+    rewrite E. cbn [rbind].
+    destruct range as [[lo hi]|]; [|finish].
+    rewrite cslice_ok by lia. cbn [rbind].
+    destruct (Hdec f Hin (slice b lo hi) (nth i vs (zero_val (sf_ty f))) (make_flags f flags))
+      as (n & e & v & E2 & Hn); [apply wfb_slice; assumption | apply length_slice_le|].
+    rewrite len_slice in Hn by lia.
+    rewrite E2. cbn [rbind].
+    destruct e; [finish|]. apply Hrec. lia.
+  Qed.
+
+  Lemma sbody_ok rec offset vs : 0 <= offset <= len b -> rec_ok rec offset ->
+    exists n e v, sbody dec fields b flags maxn rec offset vs = Ok (n, e, v) /\ 0 <= n <= len b.
+  Proof.
+    intros Ho Hrec. unfold sbody.
+    destruct (negb (offset <? len b)) eqn:G; [finish|].
+    rewrite cfrom_ok by lia. cbn [rbind].
+    destruct (proto_decodeTag (slice_from b offset)) as [[[fn wt] n] err] eqn:E.
+    apply dt_bounds in E; [|apply wfb_slice_from; assumption].
+    rewrite len_slice_from in E by lia.
+    destruct err; [finish|].
+    destruct E as [E1 E2]. specialize (E2 eq_refl).
+    match goal with |- context [match ?x with Some _ => _ | None => _ end] => destruct x as [[i f]|] eqn:F end.
+    - apply sknown_ok with (pre := offset); [lia | lia | | exact Hrec].
+      destruct ((0 <=? fn) && (fn <? maxn + 1) && (fn <? 2 ^ 63)); [|discriminate].
+      apply nth_field_In in F; exact F.
+    - apply sunknown_ok with (pre := offset); [lia | lia | exact Hrec].
+  Qed.
+
+  Lemma sloop_ok : forall fuel offset vs, 0 <= offset <= len b ->
+    (Z.to_nat (len b - offset) + 1 <= fuel)%nat ->
+    exists n e v, sloop dec fields b flags maxn fuel offset vs = Ok (n, e, v) /\ 0 <= n <= len b.
+  Proof.
+    induction fuel as [|k IH]; intros offset vs Ho Hf; [lia|].
+    change (sloop dec fields b flags maxn (S k) offset vs)
+      with (sbody dec fields b flags maxn (sloop dec fields b flags maxn k) offset vs).
+    apply sbody_ok; [lia|]. intros o vs' Ho'. apply IH; lia.
+  Qed.
+End LoopOk.
+
+(* ---------- codecs that decode totally with d levels of nesting ---------- *)
+Definition is_scalar (c : codec) : bool :=
+  match c with
+  | CBool | CInt | CInt32 | CInt64 | CUint | CUint32 | CUint64 | CFixed32 | CFixed64 | CFloat32 | CFloat64
+  | CString | CBytes | CByteArray _ | CMessage => true
+  | _ => false
+  end.
+
+Inductive dok : codec -> nat -> Prop :=
+| dok_scalar c d : is_scalar c = true -> dok c (S d)
+| dok_ptr t c d : dok c d -> dok (CPtr t c) (S d)
+| dok_slice n wt emb et c d : dok c d -> dok (CSlice n wt emb et c) (S d)
+| dok_map n kf vf kt vt kc vc d :
+    dok (codec_of (TStruct [GField true None kt; GField true None vt])) d ->
+    dok (CMap n kf vf kt vt kc vc) (S d)
+| dok_struct inl fs d : (forall f, In f fs -> dok (sf_codec f) d) -> dok (CStruct inl fs) (S d).
+
+Lemma dok_mono c d : dok c d -> forall d', (d <= d')%nat -> dok c d'.
+Proof.
+  induction 1 as [c d Hs | t c d H IH | n wt emb et c d H IH | n kf vf kt vt kc vc d H IH | inl fs d H IH];
+    intros d' Hd; (destruct d' as [|d']; [lia|]).
+  - apply dok_scalar; assumption.
+  - apply dok_ptr, IH; lia.
+  - apply dok_slice, IH; lia.
+  - apply dok_map, IH; lia.
+  - apply dok_struct. intros f Hin. apply (IH f Hin). lia.
+Qed.
+
+Lemma decode_ptr_eq f t c b old flags :
+  decode (S f) (CPtr t c) b old flags =
+  rlet (n, err, v) <- decode f c b (match old with VPtr (Some x) => x | _ => zero_val t end) flags in
+  dret n err (VPtr (Some v)).
+Proof. reflexivity. Qed.
+Lemma decode_slice_eq f num wt emb et c b old flags :
+  decode (S f) (CSlice num wt emb et c) b old flags =
+  rlet (n, err, v) <- decode f c b (zero_val et) proto_noflags in
+  match err with
+  | Some _ => dret n err old
+  | None => dret n None (VSlice ((match old with VSlice es => es | _ => [] end) ++ [v]))
+  end.
+Proof. reflexivity. Qed.
+Lemma decode_map_eq f num kf vf kt vt kc vc b old flags :
+  decode (S f) (CMap num kf vf kt vt kc vc) b old flags =
+  let es := match old with VMap _ es => es | _ => [] end in
+  if len b =? 0 then dret 0 None (VMap true es) else
+  let st := TStruct [GField true None kt; GField true None vt] in
+  rlet (n, err, kv) <- decode f (codec_of st) b (zero_val st) proto_noflags in
+  match err, kv with
+  | None, VStruct [k; v] => dret n None (VMap true (map_assign es k v))
+  | _, _ => dret n err (VMap true es)
+  end.
+Proof. reflexivity. Qed.
+
+Theorem decode_ok : forall c d, dok c d -> forall fuel b old flags,
+  wfb b = true -> len b < lim -> (length b + d + 1 <= fuel)%nat ->
+  exists n e v, decode fuel c b old flags = Ok (n, e, v) /\ 0 <= n <= len b.
+Proof.
+  induction 1 as [c d Hs | t c d H IH | num wt emb et c d H IH | num kf vf kt vt kc vc d H IH | inl fs d H IH];
+    intros fuel b old flags Hwf Hlen Hfuel; (destruct fuel as [|fuel]; [lia|]);
+    pose proof (len_nonneg b) as Hnn.
+  - (* scalars *)
+    destruct c; try discriminate Hs; cbn [decode].
+    + destruct (len b =? 0) eqn:G; finish.
+    + destruct (proto_decodeVarint b) as [[v n] e] eqn:E; apply dv_bounds in E; [|assumption]; finish.
+    + destruct (proto_decodeVarint b) as [[v n] e] eqn:E; apply dv_bounds in E; [|assumption].
+      match goal with |- context [if ?x then _ else _] => destruct x end; finish.
+    + destruct (proto_decodeVarint b) as [[v n] e] eqn:E; apply dv_bounds in E; [|assumption]; finish.
+    + destruct (proto_decodeVarint b) as [[v n] e] eqn:E; apply dv_bounds in E; [|assumption]; finish.
+    + destruct (proto_decodeVarint b) as [[v n] e] eqn:E; apply dv_bounds in E; [|assumption].
+      match goal with |- context [if ?x then _ else _] => destruct x end; finish.
+    + destruct (proto_decodeVarint b) as [[v n] e] eqn:E; apply dv_bounds in E; [|assumption]; finish.
+    + destruct (proto_decodeLE32 b) as [[v n] e] eqn:E; apply dle32_bounds in E; finish.
+    + destruct (proto_decodeLE64 b) as [[v n] e] eqn:E; apply dle64_bounds in E; finish.
+    + destruct (proto_decodeLE32 b) as [[v n] e] eqn:E; apply dle32_bounds in E; finish.
+    + destruct (proto_decodeLE64 b) as [[v n] e] eqn:E; apply dle64_bounds in E; finish.
+    + destruct (proto_decodeVarlen b) as [[v n] e] eqn:E; apply dl_bounds in E; [|assumption..]; finish.
+    + destruct (proto_decodeVarlen b) as [[v n] e] eqn:E; apply dl_bounds in E; [|assumption..]; finish.
+    + destruct (proto_decodeVarlen b) as [[v r] e] eqn:E; apply dl_bounds in E; [|assumption..].
+      destruct e; [finish|].
+      match goal with |- context [if ?x then _ else _] => destruct x end; finish.
+    + destruct (has flags proto_toplevel); [finish|].
+      destruct (proto_decodeVarlen b) as [[v n] e] eqn:E; apply dl_bounds in E; [|assumption..].
+      destruct e; finish.
+  - (* pointer *)
+    rewrite decode_ptr_eq.
+    destruct (IH fuel b (match old with VPtr (Some x) => x | _ => zero_val t end) flags)
+      as (n & e & v & E & Hn); [assumption | assumption | lia |].
+    rewrite E. cbn [rbind]. finish.
+  - (* slice element *)
+    rewrite decode_slice_eq.
+    destruct (IH fuel b (zero_val et) proto_noflags) as (n & e & v & E & Hn); [assumption | assumption | lia |].
+    rewrite E. cbn [rbind]. destruct e; finish.
+  - (* map entry *)
+    rewrite decode_map_eq. cbv zeta.
+    destruct (len b =? 0) eqn:G; [finish|].
+    match goal with |- context [decode fuel ?c b ?o ?fl] =>
+      destruct (IH fuel b o fl) as (n & e & v & E & Hn); [assumption | assumption | lia |]
+    end.
+    rewrite E. cbn [rbind].
+    destruct e; [finish|].
+    destruct v as [| | | | | |[|k [|v [|]]]| | |]; finish.
+  - (* struct *)
+    rewrite decode_struct_eq. apply sloop_ok; [assumption | assumption | | lia | unfold len; lia].
+    intros f Hin data oldf fl Hwd Hld. apply (IH f Hin); [assumption | unfold len, lim in *; lia | lia].
+Qed.
+
+(* ---------- [codec_of] of a supported type is [dok] at the depth of the type ---------- *)
+Section GtyInd.
+  Variable P : gty -> Prop.
+  Hypothesis Hleaf : forall t,
+    match t with TPtr _ | TStruct _ | TSlice _ | TMap _ _ => False | _ => True end -> P t.
+  Hypothesis Hptr : forall t, P t -> P (TPtr t).
+  Hypothesis Hslice : forall t, P t -> P (TSlice t).
+  Hypothesis Hmap : forall k v, P k -> P v -> P (TMap k v).
+  Hypothesis Hstruct : forall fs, Forall (fun f => P (field_ty f)) fs -> P (TStruct fs).
+  Fixpoint gty_ind2 (t : gty) : P t :=
+    match t with
+    | TPtr t' => Hptr t' (gty_ind2 t')
+    | TSlice t' => Hslice t' (gty_ind2 t')
+    | TMap k v => Hmap k v (gty_ind2 k) (gty_ind2 v)
+    | TStruct fs =>
+        Hstruct fs ((fix go (fs : list gfield) : Forall (fun f => P (field_ty f)) fs :=
+                       match fs with
+                       | [] => Forall_nil _
+                       | f :: r => Forall_cons f (match f return P (field_ty f) with GField _ _ ft => gty_ind2 ft end) (go r)
+                       end) fs)
+    | TBool => Hleaf TBool I | TInt => Hleaf TInt I | TInt32 => Hleaf TInt32 I | TInt64 => Hleaf TInt64 I
+    | TUint => Hleaf TUint I | TUint32 => Hleaf TUint32 I | TUint64 => Hleaf TUint64 I
+    | TFloat32 => Hleaf TFloat32 I | TFloat64 => Hleaf TFloat64 I
+    | TString => Hleaf TString I | TBytes => Hleaf TBytes I
+    | TByteArray n => Hleaf (TByteArray n) I
+    | TRawMessage => Hleaf TRawMessage I
+    end.
+End GtyInd.
+
+Definition scalar_key (kt : gty) : bool :=
+  match kt with TBool | TInt | TInt32 | TInt64 | TUint | TUint32 | TUint64 | TString => true | _ => false end.
+Definition fok (ft : gty) : bool :=
+  match ft with
+  | TSlice et => elem_ok et
+  | TMap kt vt => scalar_key kt && elem_ok vt
+  | _ => elem_ok ft
+  end.
+Fixpoint fsok (fs : list gfield) : bool :=
+  match fs with [] => true | GField e _ ft :: r => e && fok ft && fsok r end.
+Lemma elem_ok_struct fs : elem_ok (TStruct fs) = fsok fs.
+Proof. reflexivity. Qed.
+Fixpoint fsdepth (fs : list gfield) : nat :=
+  match fs with [] => O | GField _ _ ft :: r => Nat.max (depth_ty ft) (fsdepth r) end.
+Lemma depth_ty_struct fs : depth_ty (TStruct fs) = S (fsdepth fs).
+Proof. reflexivity. Qed.
+
+Definition forced_of (tg : ptag) (ft : gty) : option codec :=
+  if tag_wire tg =? proto_fixed32 then
+    match base_ty ft with TUint32 => Some (pointers_to ft CFixed32) | TFloat32 => Some (pointers_to ft CFloat32) | _ => None end
+  else if tag_wire tg =? proto_fixed64 then
+    match base_ty ft with TUint64 => Some (pointers_to ft CFixed64) | TFloat64 => Some (pointers_to ft CFloat64) | _ => None end
+  else None.
+Definition generic_of (fl0 num : Z) (ft : gty) : Z * codec :=
+  match ft with
+  | TSlice et =>
+      let emb := is_struct (base_ty et) in
+      let fl1 := Z.lor (if emb then Z.lor fl0 proto_embedded else fl0) proto_repeated in
+      let ec := codec_of et in
+      (fl1, CSlice num (wire ec) emb et ec)
+  | TMap kt vt =>
+      let kf := if is_struct (base_ty kt) then proto_embedded else 0 in
+      let vf := if is_struct (base_ty vt) then proto_embedded else 0 in
+      (Z.lor fl0 (Z.lor proto_embedded proto_repeated), CMap num kf vf kt vt (codec_of kt) (codec_of vt))
+  | _ => if is_struct (base_ty ft) then (Z.lor fl0 proto_embedded, codec_of ft) else (fl0, codec_of ft)
+  end.
+Definition fcodec (tag : option ptag) (ft : gty) (number : Z) : sfield :=
+  let num0 := w16 number in
+  let '(num, fl0, forced) :=
+    match tag with
+    | None => (num0, 0, None)
+    | Some tg =>
+        let fl := (if tag_repeated tg then proto_repeated else 0) + (if tag_zigzag tg then proto_zigzag else 0) in
+        (w16 (tag_number tg), fl, forced_of tg ft)
+    end in
+  let '(fl, c) :=
+    match forced with
+    | Some c => (fl0, c)
+    | None => generic_of fl0 num ft
+    end in
+  SField num (w8 (proto_sizeOfTag num (wire c))) fl ft c.
+Definition fcodec_cons (tag : option ptag) (ft : gty) (number : Z) (tl : list sfield) : list sfield :=
+  let num0 := w16 number in
+  let '(num, fl0, forced) :=
+    match tag with
+    | None => (num0, 0, None)
+    | Some tg =>
+        let fl := (if tag_repeated tg then proto_repeated else 0) + (if tag_zigzag tg then proto_zigzag else 0) in
+        (w16 (tag_number tg), fl, forced_of tg ft)
+    end in
+  let '(fl, c) :=
+    match forced with
+    | Some c => (fl0, c)
+    | None => generic_of fl0 num ft
+    end in
+  SField num (w8 (proto_sizeOfTag num (wire c))) fl ft c :: tl.
+Lemma fcodec_cons_eq tag ft number tl : fcodec_cons tag ft number tl = fcodec tag ft number :: tl.
+Proof.
+  unfold fcodec_cons, fcodec. destruct tag as [tg|]; cbv zeta.
+  - destruct (forced_of tg ft); [reflexivity|].
+    match goal with |- context [generic_of ?a ?b ft] => destruct (generic_of a b ft) end. reflexivity.
+  - match goal with |- context [generic_of ?a ?b ft] => destruct (generic_of a b ft) end. reflexivity.
+Qed.
+Fixpoint cfields (fs : list gfield) (number : Z) : list sfield :=
+  match fs with
+  | [] => []
+  | GField false _ _ :: r => cfields r number
+  | GField true tag ft :: r => fcodec_cons tag ft number (cfields r (number + 1))
+  end.
+Lemma codec_of_struct fs : codec_of (TStruct fs) = CStruct (inlined_ty (TStruct fs)) (cfields fs 1).
+Proof. reflexivity. Qed.
+
+Lemma pointers_to_dok c : is_scalar c = true -> forall ft,
+  match base_ty ft with TUint32 | TFloat32 | TUint64 | TFloat64 => True | _ => False end ->
+  dok (pointers_to ft c) (depth_ty ft).
+Proof.
+  intros Hc. induction ft; cbn [base_ty pointers_to depth_ty]; intros Hb;
+    try (apply dok_scalar; exact Hc); try contradiction.
+  apply dok_ptr, IHft, Hb.
+Qed.
+Lemma forced_dok tg ft c : forced_of tg ft = Some c -> dok c (depth_ty ft).
+Proof.
+  unfold forced_of. intros H.
+  destruct (tag_wire tg =? proto_fixed32); [|destruct (tag_wire tg =? proto_fixed64); [|discriminate]];
+    destruct (base_ty ft) eqn:E; try discriminate; inversion H; subst;
+    apply pointers_to_dok; try reflexivity; rewrite E; exact I.
+Qed.
+
+Definition Qt (t : gty) : Prop := elem_ok t = true -> dok (codec_of t) (depth_ty t).
+Definition Ft (t : gty) : Prop := fok t = true -> forall fl0 num, dok (snd (generic_of fl0 num t)) (depth_ty t).
+
+Lemma generic_same fl0 num t :
+  match t with TSlice _ | TMap _ _ => False | _ => True end -> snd (generic_of fl0 num t) = codec_of t.
+Proof. destruct t; try contradiction; intros _; unfold generic_of; destruct (is_struct _); reflexivity. Qed.
+
+Lemma fcodec_dok tag ft number : fok ft = true -> Ft ft -> dok (sf_codec (fcodec tag ft number)) (depth_ty ft).
+Proof.
+  intros Hok HF. unfold fcodec. destruct tag as [tg|]; cbv zeta.
+  - destruct (forced_of tg ft) eqn:E; [apply forced_dok in E; exact E|].
+    match goal with |- context [generic_of ?a ?b ft] => specialize (HF Hok a b); destruct (generic_of a b ft) end.
+    exact HF.
+  - match goal with |- context [generic_of ?a ?b ft] => specialize (HF Hok a b); destruct (generic_of a b ft) end.
+    exact HF.
+Qed.
+
+Lemma cfields_dok : forall fs number, fsok fs = true -> Forall (fun f => Ft (field_ty f)) fs ->
+  forall f, In f (cfields fs number) -> dok (sf_codec f) (fsdepth fs).
+Proof.
+  induction fs as [|[e tg ft] r IH]; intros number Hok HF f Hin; [contradiction|].
+  cbn [fsok] in Hok. apply andb_true_iff in Hok. destruct Hok as [Hok Hr].
+  apply andb_true_iff in Hok. destruct Hok as [He Hft]. subst e.
+  inversion HF as [|x l HF1 HF2]; subst. cbn [field_ty] in HF1.
+  cbn [cfields fsdepth] in *. rewrite fcodec_cons_eq in Hin. destruct Hin as [Hin|Hin].
+  - subst f. eapply dok_mono; [apply fcodec_dok; assumption | lia].
+  - eapply dok_mono; [eapply IH; eassumption | lia].
+Qed.
+
+Lemma codec_of_dok : forall t, Qt t /\ Ft t.
+Proof.
+  apply gty_ind2.
+  - (* leaves *)
+    intros t Ht. assert (HQ : Qt t).
+    { destruct t; try contradiction; intros _; apply dok_scalar; reflexivity. }
+    split; [exact HQ|]. intros Hok fl0 num. rewrite generic_same by (destruct t; try contradiction; exact I).
+    apply HQ. destruct t; try contradiction; reflexivity.
+  - (* pointer *)
+    intros t [HQ _]. assert (HQ' : Qt (TPtr t)).
+    { intros Hok. cbn [codec_of depth_ty]. apply dok_ptr, HQ, Hok. }
+    split; [exact HQ'|]. intros Hok fl0 num. rewrite generic_same by exact I. apply HQ', Hok.
+  - (* slice *)
+    intros t [HQ _]. split; [intros Hok; discriminate Hok|].
+    intros Hok fl0 num. cbn [generic_of snd depth_ty fok] in *. cbv zeta. cbn [snd].
+    apply dok_slice, HQ, Hok.
+  - (* map *)
+    intros k v [HQk _] [HQv HFv]. split; [intros Hok; discriminate Hok|].
+    intros Hok fl0 num. cbn [fok] in Hok. apply andb_true_iff in Hok. destruct Hok as [Hk Hv].
+    cbn [generic_of depth_ty]. cbv zeta. cbn [snd].
+    apply dok_map. rewrite codec_of_struct. apply dok_struct.
+    intros f Hin. cbn [cfields] in Hin. rewrite !fcodec_cons_eq in Hin.
+    destruct Hin as [Hin|[Hin|[]]]; subst f.
+    + eapply dok_mono; [apply fcodec_dok|].
+      * destruct k; try discriminate Hk; reflexivity.
+      * intros _ a c. rewrite generic_same by (destruct k; try discriminate Hk; exact I).
+        apply HQk. destruct k; try discriminate Hk; reflexivity.
+      * lia.
+    + eapply dok_mono; [apply fcodec_dok|].
+      * destruct v; try discriminate Hv; exact Hv.
+      * intros _ a c. rewrite generic_same by (destruct v; try discriminate Hv; exact I).
+        apply HQv, Hv.
+      * lia.
+  - (* struct *)
+    intros fs HF. assert (HQ' : Qt (TStruct fs)).
+    { intros Hok. rewrite elem_ok_struct in Hok. rewrite codec_of_struct, depth_ty_struct.
+      apply dok_struct. apply cfields_dok; [exact Hok|].
+      eapply Forall_impl; [|exact HF]. intros a [_ Ha]; exact Ha. }
+    split; [exact HQ'|]. intros Hok fl0 num. rewrite generic_same by exact I. apply HQ', Hok.
+Qed.
+
+(* the general form: any flags, result within the input *)
+Theorem decode_total_strong t b old flags fuel :
+  type_ok t = true -> wfb b = true -> len b < lim -> (length b + depth_ty t + 1 <= fuel)%nat ->
+  exists n e v, decode fuel (codec_of t) b old flags = Ok (n, e, v) /\ 0 <= n <= len b.
+Proof.
+  intros Hok Hwf Hlen Hfuel. apply decode_ok with (d := depth_ty t); try assumption.
+  apply (proj1 (codec_of_dok t)), Hok.
+Qed.
+
 Lemma decode_total : decode_total_statement.
-Admitted.
+Proof.
+  intros t b old flags fuel Hok Hwf Hlen _ Hfuel.
+  destruct (decode_total_strong t b old flags fuel) as (n & e & v & E & Hn); try assumption; [lia|].
+  exists n, e, v. split; [exact E | lia].
+Qed.
 Lemma unmarshal_total : unmarshal_total_statement.
-Admitted.
+Proof.
+  intros t b old Hok Hwf Hlen. unfold Unmarshal.
+  destruct (len b =? 0); [eexists; reflexivity|].
+  destruct (decode_total_strong t b old proto_toplevel (length b + 2 * depth_ty t + 2))
+    as (n & e & v & E & Hn); try assumption; [lia|].
+  rewrite E. cbn [rbind].
+  destruct e; [eexists; reflexivity|]. destruct (n <? len b); eexists; reflexivity.
+Qed.
